@@ -267,14 +267,16 @@ CuspMaxOrder(v) == IF v = "us" THEN 4 ELSE 3
 (* Casimir scaling (A_g,4 # (C_A/C_F) A_q,4); the code follows the literature, so    *)
 (* the clause is not decided (and not flagged) for k = 4.                             *)
 (* a cell carries the expected slope num/(10^4 dd) and the normalisation den/(10^4 dd) *)
+(* var: the N3LO variation index of the FHMRUVV parametrisation (0 central, 1, 2): the cusp  *)
+(* term is known exactly, so every variation must show the same slope                       *)
 PlanC27Ns ==
-  {c \in {[v |-> v, sec |-> s, k |-> k, nf |-> nf, fl |-> fl, j |-> j,
+  {c \in {[v |-> v, sec |-> s, k |-> k, nf |-> nf, fl |-> fl, var |-> var, j |-> j,
             num |-> Cusp1e4(k, nf), den |-> Cusp1e4(k, 0), dd |-> 1] :
             v \in CuspVariants, s \in {"ns+", "ns-", "nsv"}, k \in 1..4, nf \in 3..5,
-            fl \in {"-", "fhmruvv", "eko"}, j \in Pts} :
-     c.k <= CuspMaxOrder(c.v) /\ c.fl \in Flavours(c.k)}
+            fl \in {"-", "fhmruvv", "eko"}, var \in 0..2, j \in Pts} :
+     c.k <= CuspMaxOrder(c.v) /\ c.fl \in Flavours(c.k) /\ (c.var > 0 => c.fl = "fhmruvv")}
 PlanC27Gg ==
-  {[v |-> v, sec |-> "gg", k |-> k, nf |-> nf, fl |-> "-", j |-> j,
+  {[v |-> v, sec |-> "gg", k |-> k, nf |-> nf, fl |-> "-", var |-> 0, j |-> j,
     num |-> 9 * Cusp1e4(k, nf), den |-> 9 * Cusp1e4(k, 0), dd |-> 4] :
      v \in CuspVariants, k \in 1..3, nf \in 3..5, j \in Pts}
 (* required exponent x100 of |slope - A_k(nf)| / A_k(0), N pairs in [3e4, 1e5]:     *)
